@@ -20,6 +20,15 @@ fn text_for(construct: &str, depth: usize) -> String {
         "paren" => format!("{}i1{}", "(".repeat(depth), ")".repeat(depth)),
         "index" => format!("a{}", ".b".repeat(depth)),
         "contains" => format!("{}[i1] contains i1{}", "[".repeat(depth), "] contains true".repeat(depth)),
+        // the nested element in other positions than "last, without a comma"
+        "listfirst" => format!("{}i1{}", "[".repeat(depth), ", i2]".repeat(depth)),
+        "listcomma" => format!("{}i1{}", "[".repeat(depth), ",]".repeat(depth)),
+        "listmap" => format!("{}i1{}", "[{k:".repeat(depth), "}, i2]".repeat(depth)),
+        "mapcomma" => format!("{}i1{}", "{k:".repeat(depth), ", j: i2,}".repeat(depth)),
+        "ifthen" => format!("{}i1{}", "if true then ".repeat(depth), " else i2".repeat(depth)),
+        "callsum" => format!("{}i1{}", "f(i1 + ".repeat(depth), ")".repeat(depth)),
+        "subright" => format!("{}i1{}", "i1 - (".repeat(depth), ")".repeat(depth)),
+        "string" => format!("\"{}\"", "a\\n".repeat(depth)),
         _ => panic!("unknown construct {construct}"),
     }
 }
